@@ -27,14 +27,23 @@ def xml_text(s):
 # ------------------------------------------------------------------------------------------
 # documents: nested  ('E', name, [(an, av)...], [kids]) | ('T', s) | ('C', s) | ('P', target, data)
 
-def doc_xml(node):
+DOC_NS = {"p": "urn:p", "q": "urn:p"}          # two prefixes, one namespace, declared on the document element
+
+
+def uri_of(qname):
+    return DOC_NS.get(qname.split(":")[0], "") if ":" in qname else ""
+
+
+def doc_xml(node, top=True):
     k = node[0]
     if k == "E":
         _, name, attrs, kids = node
         a = "".join(' %s="%s"' % (n, xml_attr(v)) for n, v in attrs)
+        if top:
+            a = ' xmlns:p="urn:p" xmlns:q="urn:p"' + a
         if not kids:
             return "<%s%s/>" % (name, a)
-        return "<%s%s>%s</%s>" % (name, a, "".join(doc_xml(c) for c in kids), name)
+        return "<%s%s>%s</%s>" % (name, a, "".join(doc_xml(c, False) for c in kids), name)
     if k == "T":
         return xml_text(node[1])
     if k == "C":
@@ -47,7 +56,7 @@ def doc_xml(node):
 def doc_tokens(top):
     """top: list of top-level nodes (one element + comments/PIs). Flat records in document order,
     attributes directly after their element."""
-    out = ["R - - 0"]
+    out = ["R - - 0 -"]
     n = [0]
 
     def walk(node, parent):
@@ -55,18 +64,18 @@ def doc_tokens(top):
         me = n[0]
         k = node[0]
         if k == "E":
-            out.append("E %s - %d" % (enc(node[1]), parent))
+            out.append("E %s - %d %s" % (enc(node[1]), parent, enc(uri_of(node[1]))))
             for an, av in node[2]:
                 n[0] += 1
-                out.append("A %s %s %d" % (enc(an), enc(av), me))
+                out.append("A %s %s %d %s" % (enc(an), enc(av), me, enc(uri_of(an))))
             for c in node[3]:
                 walk(c, me)
         elif k == "T":
-            out.append("T - %s %d" % (enc(node[1]), parent))
+            out.append("T - %s %d -" % (enc(node[1]), parent))
         elif k == "C":
-            out.append("C - %s %d" % (enc(node[1]), parent))
+            out.append("C - %s %d -" % (enc(node[1]), parent))
         elif k == "P":
-            out.append("P %s %s %d" % (enc(node[1]), enc(node[2]), parent))
+            out.append("P %s %s %d -" % (enc(node[1]), enc(node[2]), parent))
 
     for t in top:
         walk(t, 0)
@@ -382,7 +391,7 @@ def template_tok(t):
                                                        t.get("prec", 0), t.get("low", 0), body_tok(t["body"]))
 
 
-XSL_OPEN = '<xsl:stylesheet xmlns:xsl="http://www.w3.org/1999/XSL/Transform" version="1.0">'
+XSL_OPEN = '<xsl:stylesheet xmlns:xsl="http://www.w3.org/1999/XSL/Transform" xmlns:p="urn:p" version="1.0">'
 
 
 def stylesheet_modules(ss):
@@ -484,6 +493,7 @@ class Gen:
         self.features = set()
         self.sets = []
         self.keys = []
+        self.ns = False           # namespaced names in the document and in the stylesheet (prefix p = urn:p)
         self.imports = 0
         self.nopos = False        # inside top-level variable selects: no position()/last() (evaluated lazily by the processor)
 
@@ -495,10 +505,14 @@ class Gen:
         def elem(depth):
             budget[0] -= 1
             name = r.choice(ENAMES)
+            if self.ns and r.chance(1, 3):
+                name = r.choice(["p:", "q:"]) + r.choice(ENAMES[:2])
             attrs = []
             for an in ANAMES:
                 if r.chance(1, 3):
                     attrs.append((an, r.choice(VALUES)))
+            # no namespaced attributes in the documents: copying such an attribute node to an element that does not
+            # declare its prefix yields an undeclared prefix in the processor (tagged corpus case, C14's subject)
             kids = []
             nk = (r.range(2, 4) if depth == 0 else r.range(0, 4)) if depth < 3 else 0
             last_text = False
@@ -547,6 +561,8 @@ class Gen:
             # element tests only: a node-set in which the document node is merged with other nodes is
             # mis-ordered / not de-duplicated by the processor (C12's subject; recorded corpus cases)
             return r.weighted([(("name", r.choice(ENAMES + ["r"])), 5), ("star", 4)])
+        if self.ns and r.chance(1, 3):
+            return ("name", "p:" + r.choice(ENAMES[:2]))
         if inner:
             return r.weighted([(("name", r.choice(ENAMES)), 5), ("star", 4), ("node", 1)])
         return r.weighted([(("name", r.choice(ENAMES)), 6), ("star", 3), ("text", 2), ("node", 2), ("comment", 1), ("pi", 1)])
@@ -686,6 +702,9 @@ class Gen:
                 return ("num", r.range(0, 9))
             return ("fn", r.choice(["position", "last"]), [])
         if c == "arith":
+            if r.chance(1, 4):
+                # division only by a power of two: every value stays an exactly representable dyadic rational
+                return ("bin", "div", self.gen_num(env, depth - 1), ("num", r.choice([2, 2, 4, 8])))
             return ("bin", r.choice(["+", "-", "*", "mod"]), self.gen_num(env, depth - 1), self.gen_num(env, depth - 1))
         if c == "number":
             if r.chance(1, 4):
@@ -797,7 +816,7 @@ class Gen:
 
     def attr_instr(self, env, depth, late=False):
         r = self.r
-        name = [("l", r.choice(["k", "x", "id", "y"]))]
+        name = [("l", ("p:" if (self.ns and r.chance(1, 4)) else "") + r.choice(["k", "x", "id", "y"]))]
         if r.chance(1, 5) and not self.fragment:
             name.append(("e", ("fn", "position", [])))
         i = {"k": "attribute", "name": name, "body": self.text_body(env, min(depth, 1))}
@@ -894,9 +913,11 @@ class Gen:
                 for _ in range(r.range(1, 2)):
                     parts.append(("l", r.choice(["v", "a", "1 ", ""])) if r.chance(1, 2) else ("e", r.choice([self.gen_str, self.gen_num])(env, 1)))
                 attrs.append((an, parts))
-            return [{"k": "lre", "name": r.choice(OUTNAMES), "attrs": attrs, "body": self.gen_body(env, depth - 1, tctx, in_elem=True)}]
+            if self.ns and r.chance(1, 4):
+                attrs.append(("p:a", [("l", "n")]))
+            return [{"k": "lre", "name": ("p:" + r.choice(["item", "x"])) if (self.ns and r.chance(1, 3)) else r.choice(OUTNAMES), "attrs": attrs, "body": self.gen_body(env, depth - 1, tctx, in_elem=True)}]
         if k == "element":
-            name = [("l", r.choice(["el", "n", "g"]))]
+            name = [("l", ("p:" if (self.ns and r.chance(1, 3)) else "") + r.choice(["el", "n", "g"]))]
             if r.chance(1, 3):
                 name.append(("e", r.choice([("fn", "position", []), ("fn", "count", [self.down_path(env, 0)])])))
             return [{"k": "element", "name": name, "body": self.gen_body(env, depth - 1, tctx, in_elem=True)}]
@@ -1014,6 +1035,7 @@ class Gen:
     def gen_stylesheet(self):
         r = self.r
         self.varctr = 0
+        self.ns = (not self.fragment) and r.chance(1, 4)
         self.imports = 0 if self.fragment or not r.chance(1, 4) else 1
         self.modes = ["m1"] if r.chance(1, 3) else []
         nnamed = r.weighted([(0, 3), (1, 3), (2, 2)])
